@@ -33,7 +33,7 @@ def one(rng, small=True):
     ss = rng.choice(SS)
     w = rng.choice([rng.randint(1, 50), rng.randint(1, 20), 8, 16, 17, 33]); h = rng.choice([rng.randint(1, 40), rng.randint(1, 17), 8, 16])
     prec = rng.choice([8, 8, 8, 12])
-    kind = rng.choice([0, 0, 1, 2, 3, 4, 5, 6])
+    kind = rng.choice([0, 0, 1, 2, 3, 4, 5, 6, 7])
     mode = rng.choice([0, 1, 2, 3, 3, 3, 4, 5, 6, 7, 8])
     ri = rng.choice([0, 0, 0, 1, 2, 3, 7, 8, 9, 64, 65535, rng.randint(1, 40)])
     rirows = rng.choice([0, 0, 0, 1, 2]) if ri == 0 else 0
@@ -84,7 +84,8 @@ def stage2(ops, model_lines, res_by_v):
         if len(set(streams.values())) > 1:
             fails.append((vs[0], i, op, "streams differ between builds", "fail ent: the scalar and the SIMD build wrote different streams for the same request"))
         if streams:
-            out.append("t81 " + streams[vs[0]])
+            for st in sorted(set(streams.values())):
+                out.append("t81 " + st)
     return out, fails
 
 
@@ -92,7 +93,16 @@ def search(ctx, failing_ops):
     from .. import common as C
     import random
     rng = random.Random("search/%s" % ctx["seed"])
-    ops = [o for o in failing_ops if o.startswith("ent ")] + [one(rng) for _ in range(300)]
+    ops = [o for o in failing_ops if o.startswith("ent ")]
+    # a byte-level disagreement (seqbytes / seqfile / progfile) becomes the same request through the end-to-end oracle
+    for o in failing_ops:
+        p = o.split(" ")
+        if p[0] in ("seqbytes", "seqfile", "progfile") and len(p) >= 8:
+            ss = "3" if p[7] == "1" else str(int(p[5]) * 10 + int(p[6]))
+            kind, sseed = (p[8], p[9]) if p[0] == "progfile" else ("0", "0")
+            mode = "0" if p[0] != "progfile" else ("2" if sseed == "0" else "3")
+            ops.append("ent %s %s %s 8 %s %s %s %s 0 %s -1" % (ss, p[2], p[3], p[1], kind, mode, p[4], sseed))
+    ops += [one(rng) for _ in range(300)]
     found = []
     for v, exe in ctx["exes"].items():
         res, _ = C.run_exec(exe, ops)
